@@ -5,7 +5,7 @@ Harness process entry point (one harness per process, DESIGN 2.8).
   python -m vlib.runh replay  <module> <harness> --record FILE [--params JSON]
 
 Prints one JSON object (last line of stdout, prefixed RESULT:).
-VERIF_MUTATE="pybufrkit.decoder::old text=>new text" applies a canary mutation
+VERIF_MUTATE="pybufrkit.decoder::old text-->>new text" applies a canary mutation
 to the module source in memory (never on disk) before anything imports it.
 """
 import argparse
@@ -61,7 +61,7 @@ class _MutatingFinder(importlib.abc.MetaPathFinder):
 
 def install_mutation(spec_text):
     target, rest = spec_text.split('::', 1)
-    old, new = rest.split('=>', 1)
+    old, new = rest.split('-->>', 1)
     sys.meta_path.insert(0, _MutatingFinder(target, old, new))
 
 
